@@ -385,4 +385,120 @@ def intoF64Bits : Arg → Option Nat
     | none => none
   | .dur s n => durationToF64Bits s n
 
+/-- `pub fn __into_f64<V: IntoF64>(value: V) -> f64 { value.into_f64() }` (the helper the `histogram!` macro
+    calls): nothing but the trait method -/
+def dunderIntoF64Bits (a : Arg) : Option Nat := intoF64Bits a
+
+/-! ### `GaugeValue::update_value` (metrics/src/common.rs) -/
+
+/-- `enum GaugeValue { Absolute(f64), Increment(f64), Decrement(f64) }` -/
+inductive GaugeValue (F : Type)
+  | absolute (v : F)
+  | increment (v : F)
+  | decrement (v : F)
+  deriving Repr, DecidableEq
+
+/-- `GaugeValue::update_value(&self, input: f64) -> f64`:
+    `Absolute(val) => *val`, `Increment(val) => input + val`, `Decrement(val) => input - val` -/
+def GaugeValue.updateValue {F : Type} (A : Carrier F) : GaugeValue F → F → F
+  | .absolute v, _ => v
+  | .increment v, input => A.add input v
+  | .decrement v, input => A.sub input v
+
+/-- the storage update a recorder makes for a gauge value: `Gauge::set` / `increment` / `decrement` -/
+def GaugeValue.toOp {F : Type} : GaugeValue F → Op F
+  | .absolute v => .gSet v
+  | .increment v => .gInc v
+  | .decrement v => .gDec v
+
+/-- the arms of `update_value` as the translator prints them: (variant, expression) in source order -/
+def updateValueArms : List (String × String) :=
+  [("Absolute", "*val"), ("Increment", "input + val"), ("Decrement", "input - val")]
+
+/-! ### `impl CounterFn / GaugeFn / HistogramFn for Arc<T>`, `from_arc`, `From<Arc<T>>` (handles.rs)
+
+Every method of the `Arc<T>` impls is `(**self).<the same method>(<the same arguments>)`; `from_arc(a)` is
+`Self { inner: Some(a) }` (`Handle.fromArc`) and `From<Arc<T>>::from(inner)` is `<Handle>::from_arc(inner)`.
+So a handle on `Arc<Arc<…<T>>>` applies exactly `T`'s update: in the step machine every live handle is `some ()`
+whatever its nesting. -/
+
+/-- an implementation of `CounterFn`/`GaugeFn` over a storage `σ`: what each update does to it -/
+structure UpdFn (σ F : Type) where
+  apply : Op F → σ → σ
+
+/-- `impl<T: CounterFn> CounterFn for Arc<T>`, `impl<T: GaugeFn> GaugeFn for Arc<T>` -/
+def UpdFn.arc {σ F : Type} (inner : UpdFn σ F) : UpdFn σ F := { apply := fun op s => inner.apply op s }
+
+/-- `k` nested `Arc`s -/
+def UpdFn.arcN {σ F : Type} (inner : UpdFn σ F) : Nat → UpdFn σ F
+  | 0 => inner
+  | k + 1 => UpdFn.arc (UpdFn.arcN inner k)
+
+/-- the `AtomicU64` storage as an `UpdFn` -/
+def cellFn {F : Type} (A : Carrier F) : UpdFn Nat F := { apply := applyOp A }
+
+/-- the forwarding bodies as the translator prints them: (trait::method, body) in source order -/
+def arcForwardTable : List (String × String) :=
+  [("CounterFn::increment", "(**self).increment(value)"), ("CounterFn::absolute", "(**self).absolute(value)"),
+   ("GaugeFn::increment", "(**self).increment(value)"), ("GaugeFn::decrement", "(**self).decrement(value)"),
+   ("GaugeFn::set", "(**self).set(value)"), ("HistogramFn::record", "(**self).record(value)")]
+
+/-- `from_arc` of the three handles and the three `From<Arc<T>>` impls, as the translator prints them -/
+def ctorTable : List (String × String) :=
+  [("Counter::from_arc", "Self { inner: Some(a) }"), ("Gauge::from_arc", "Self { inner: Some(a) }"),
+   ("Histogram::from_arc", "Self { inner: Some(a) }"),
+   ("From<Arc<T>> for Counter", "Counter::from_arc(inner)"), ("From<Arc<T>> for Gauge", "Gauge::from_arc(inner)"),
+   ("From<Arc<T>> for Histogram", "Histogram::from_arc(inner)")]
+
+/-! ### IEEE-754 binary64 `+` and `-` on bit patterns (round to nearest, ties to even)
+
+What `input + value` / `input - value` compute in the `fetch_update` closures and in `update_value`, for ALL
+operands: a finite f64 is an integer multiple of 2^-1074, the sum of two is formed exactly (as a `Nat` magnitude
+with a sign) and rounded once.  NaN results are represented by `defaultNaN` (which NaN the hardware produces is
+not specified by Rust; the correspondence compares NaN-ness only). -/
+
+def f64Exp (b : Nat) : Nat := (b / 2 ^ 52) % 2048
+def f64Frac (b : Nat) : Nat := b % 2 ^ 52
+def f64Sign (b : Nat) : Bool := decide ((b / 2 ^ 63) % 2 = 1)
+def f64IsNaN (b : Nat) : Bool := f64Exp b == 2047 && f64Frac b != 0
+def f64IsInf (b : Nat) : Bool := f64Exp b == 2047 && f64Frac b == 0
+
+/-- magnitude of a finite f64 in units of 2^-1074 (subnormals: the fraction itself) -/
+def f64Mag (b : Nat) : Nat :=
+  if f64Exp b = 0 then f64Frac b else (2 ^ 52 + f64Frac b) * 2 ^ (f64Exp b - 1)
+
+def signBit (neg : Bool) : Nat := if neg then 2 ^ 63 else 0
+
+/-- the bits (without sign) of the f64 nearest to `s · 2^-1074`, ties to even; overflow gives +∞'s bits.
+    Below 2^53 every magnitude is representable and IS its own bit pattern (subnormals and exponent 1). -/
+def roundMag (s : Nat) : Nat :=
+  if s < 2 ^ 53 then s
+  else
+    let sh := s.log2 - 52
+    let q := s / 2 ^ sh
+    let rem := s % 2 ^ sh
+    let half := 2 ^ (sh - 1)
+    let q' := if half < rem ∨ (rem = half ∧ q % 2 = 1) then q + 1 else q
+    let bits := (sh + 1) * 2 ^ 52 + (q' - 2 ^ 52)
+    if 2047 * 2 ^ 52 ≤ bits then 2047 * 2 ^ 52 else bits
+
+/-- `a + b` on f64 bit patterns -/
+def f64Add (a b : Nat) : Nat :=
+  if f64IsNaN a || f64IsNaN b then defaultNaN
+  else if f64IsInf a then (if f64IsInf b && (f64Sign a != f64Sign b) then defaultNaN else a)
+  else if f64IsInf b then b
+  else if f64Sign a = f64Sign b then signBit (f64Sign a) + roundMag (f64Mag a + f64Mag b)
+  else if f64Mag a = f64Mag b then 0
+  else if f64Mag b < f64Mag a then signBit (f64Sign a) + roundMag (f64Mag a - f64Mag b)
+  else signBit (f64Sign b) + roundMag (f64Mag b - f64Mag a)
+
+/-- `-b` on bit patterns (flip the sign bit) -/
+def f64NegBits (b : Nat) : Nat := if f64Sign b then b - 2 ^ 63 else b + 2 ^ 63
+
+/-- `a - b` = `a + (-b)` (an IEEE identity, signs of zeros included) -/
+def f64Sub (a b : Nat) : Nat := f64Add a (f64NegBits b)
+
+/-- the bit-level carrier: `F` = the 64 bits themselves, so `to_bits`/`from_bits` are the identity -/
+def ieeeCarrier : Carrier Nat := { add := f64Add, sub := f64Sub, toBits := id, ofBits := id }
+
 end MetricsVerif.Atomics
